@@ -225,3 +225,48 @@ pub fn c04_name_composed_cmp_fixed_layout_bounded() {
     assert!(x.composed_cmp(&y) == plain);
     assert!(x.lowercase_composed_cmp(&y) == lowered);
 }
+
+/// Character strings (base/charstr.rs; the comparison code is written with iterator adapters, outside Verus):
+/// == is equality up to ASCII case; cmp / partial_cmp are the order of the lower-cased octet strings and Equal
+/// exactly on equal values; equal strings write the same octets to any Hasher; canonical_cmp is the octet order of
+/// the wire form (length octet, then the octets as they are: RFC 4034 6.2 does not lower-case character strings).
+/// Bounded: two strings of at most 6 octets, all contents.
+#[kani::proof]
+#[kani::unwind(9)]
+pub fn c04_charstr_order_eq_hash_len6_bounded() {
+    use domain::base::charstr::CharStr;
+    let a: [u8; 6] = kani::any();
+    let b: [u8; 6] = kani::any();
+    let la: usize = kani::any();
+    let lb: usize = kani::any();
+    kani::assume(la <= 6 && lb <= 6);
+    let x = CharStr::from_slice(&a[..la]).unwrap();
+    let y = CharStr::from_slice(&b[..lb]).unwrap();
+    let c = x.cmp(y);
+    kani::cover!(c == Ordering::Equal && la > 0 && a[0] != b[0]);
+    kani::cover!(c == Ordering::Less);
+    assert!(c == ref_cmp(&a[..la], &b[..lb]));
+    assert!((x == y) == (c == Ordering::Equal));
+    assert!(x.partial_cmp(y) == Some(c));
+    assert!(y.cmp(x) == c.reverse());
+    if x == y {
+        let (mut h1, mut h2) = (Rec::<8>::new(), Rec::<8>::new());
+        x.hash(&mut h1);
+        y.hash(&mut h2);
+        assert!(h1.same(&h2));
+    }
+    let cc = x.canonical_cmp(y);
+    if la != lb {
+        assert!(cc == la.cmp(&lb));
+    } else {
+        let mut plain = Ordering::Equal;
+        let mut i = 0;
+        while i < la {
+            if plain == Ordering::Equal {
+                plain = a[i].cmp(&b[i]);
+            }
+            i += 1;
+        }
+        assert!(cc == plain);
+    }
+}
